@@ -21,7 +21,7 @@ operation removed from a tree (appended in the order the model defines: applicat
 """
 import contextlib, copy
 
-ERR_WRITE, ERR_KEY, ERR_INDEX, ERR_TYPE, ERR_VALUE, ERR_ASSERT, ERR_ATTR, ERR_OTHER, ERR_NA = 1, 2, 3, 4, 5, 6, 7, 9, 99
+ERR_WRITE, ERR_KEY, ERR_INDEX, ERR_TYPE, ERR_VALUE, ERR_ASSERT, ERR_ATTR, ERR_OTHER, ERR_HANG, ERR_NA = 1, 2, 3, 4, 5, 6, 7, 9, 97, 99
 
 # op tags (must match coq/Model/SymCore.v)
 LSET, LDEL, LAPPEND, LINSERT, LEXTEND, LPOP, LREMOVE, LCLEAR, LREVERSE, LSORT, LIADD, LIMUL, LADD, LMUL, LCOPY = range(1, 16)
@@ -229,9 +229,6 @@ class Impl:
   def locate(self, obj):
     for i, r in enumerate(self.roots):
       if r is None: continue
-      found = []
-      def visit(x, parent, key):
-        pass
       stack = [(r, [])]
       seen = set()
       while stack:
@@ -297,7 +294,27 @@ def err_code(e):
   if isinstance(e, ValueError): return ERR_VALUE
   if isinstance(e, AssertionError): return ERR_ASSERT
   if isinstance(e, AttributeError): return ERR_ATTR
+  if isinstance(e, Hang): return ERR_HANG
   return ERR_OTHER
+
+class Hang(Exception):
+  """The operation did not return (e.g. a walk up a cyclic parent chain)."""
+
+WATCHDOG_S = 3.0
+@contextlib.contextmanager
+def watchdog(seconds):
+  import signal, threading
+  if threading.current_thread() is not threading.main_thread():
+    yield; return
+  def handler(signum, frame):
+    raise Hang('operation still running after %.1fs' % seconds)
+  old = signal.signal(signal.SIGALRM, handler)
+  signal.setitimer(signal.ITIMER_REAL, seconds)
+  try:
+    yield
+  finally:
+    signal.setitimer(signal.ITIMER_REAL, 0)
+    signal.signal(signal.SIGALRM, old)
 
 # ---- applying one operation -------------------------------------------------------------------------
 def app_order(impl, target, paths):
@@ -320,7 +337,6 @@ def apply_op(impl, scope, op):
     if (tag in LIST_OPS and k != 1) or (tag in DICT_OPS and k != 0) or (tag in OBJ_OPS and k < 2) or k < 0:
       raise NotApplicable()
     # resolve references before anything runs (a missing position makes the whole op not applicable)
-    refs = []
     def check(v):
       if v[0] == 1: impl.at((v[1], v[2]))
       elif v[0] == 2: check(v[1])
@@ -336,9 +352,8 @@ def apply_op(impl, scope, op):
   exc = None
   with scoped(scope):
     try:
-      ret = run_op(impl, target, op, new_results)
-    except RecursionError as e:
-      exc = e
+      with watchdog(WATCHDOG_S):
+        ret = run_op(impl, target, op, new_results)
     except Exception as e:     # pylint: disable=broad-except
       exc = e
   info['exception'] = exc
@@ -347,26 +362,27 @@ def apply_op(impl, scope, op):
   for i in range(old_n):
     r = impl.roots[i]
     if r is None: continue
-    others = impl.reachable(only=set(range(old_n)) - {i})
-    if id(r) in others:
+    inside = [False]
+    def visit(x, parent, key):
+      if x is r and parent is not None: inside[0] = True
+    for j, o in enumerate(impl.roots[:old_n] + new_results):
+      if o is not None and j != i:
+        walk(o, visit)
+    if inside[0]:
       impl.roots[i] = None
+  impl.roots.extend(new_results)
   now = impl.reachable()
+  del impl.roots[old_n:]
   gone = [(x, ri, keys) for (x, ri, keys) in pre_order if id(x) not in now and keys]
   gone_ids = {id(x) for x, _, _ in gone}
+  # parent before the op = the node whose pre-op position is the prefix
+  by_pos = {(ri, tuple(map(repr, keys))): x for (x, ri, keys) in pre_order}
+  pre_parent = {id(x): by_pos.get((ri, tuple(map(repr, keys[:-1])))) for (x, ri, keys) in pre_order if keys}
   def topmost(x, ri, keys):
     par = pre_parent.get(id(x))
     if par is None or id(par) not in gone_ids:
       return True
     return not any(v is x for _, v in sym_children(par))
-  pre_parent = {}
-  for (x, ri, keys) in pre_order:
-    for _, v in sym_children(x) if id(x) in now or True else []:
-      pass
-  # parent before the op = the node whose pre-op position is the prefix
-  by_pos = {(ri, tuple(map(repr, keys))): x for (x, ri, keys) in pre_order}
-  for (x, ri, keys) in pre_order:
-    if keys:
-      pre_parent[id(x)] = by_pos.get((ri, tuple(map(repr, keys[:-1]))))
   det = [(x, ri, keys) for (x, ri, keys) in gone if topmost(x, ri, keys)]
   if tag in (REBIND, DUPDATE, DIOR) and len(det) > 1:
     paths = [p for p, _ in op[2]] if tag == REBIND else [[kk] for kk, _ in op[2]]
